@@ -171,6 +171,19 @@ def GenSt.drain (s : GenSt) : GenSt :=
   let s := ids.foldl (fun (s : GenSt) v => if v ∈ s.r.ids then s.emit (.data v) else s) s
   { s with lines := (s.lines.push s!"observe {s.h}").push s!"snap {s.h}" }
 
+/-- a dangling edge: two groups, an edge from one into the other, then the target's group is collected; the
+    source keeps an edge into an absent id whose slot still holds stale content -/
+def GenSt.dangling (s : GenSt) : GenSt :=
+  let free := (List.range s.cap).filter (· ∉ s.r.ids)
+  match free with
+  | a :: b :: c :: d :: _ =>
+    let ops : List Op := [.add a, .add b, .bind a b (.alpha 0), .add c, .add d, .bind c d (.alpha 0), .bind a c (.alpha 1),
+      .put d (Hx.Hex.ofBytes [1, 2, 3]), .data d]
+    match s.tryOps ops with
+    | some s' => s'
+    | none => s
+  | _ => s
+
 def GenSt.start (rng : Rng) (n cap : Nat) : GenSt :=
   { rng, n, cap, labels := labelPool n, lines := #["reset", s!"new g0 {n} {cap}"] }
 
@@ -329,6 +342,7 @@ def genFork (rng : Rng) (len : Nat) : Rng × Array String :=
     else if scenario = 1 then
       (List.range 3).foldl (fun (s : GenSt) _ => match s.tryOps [.nextId] with | some x => x | none => s) s
     else if scenario = 2 then s
+    else if scenario = 3 then ((List.range (len / 2)).foldl (fun s _ => s.stepRandom p) s).dangling
     else (List.range (len / 2)).foldl (fun s _ => s.stepRandom p) s
   let s := { s with lines := s.lines.push "clone g0 g1" }
   let s := cloneQueries s "g0" "g1" 2
@@ -343,6 +357,9 @@ def genSer (rng : Rng) (len : Nat) (cutStep : Nat) : Rng × Array String :=
   let s := { s with rng := rng }
   let p := if k = 0 then profRw else profGc
   let s := (List.range (len / 2)).foldl (fun s _ => s.stepRandom p) s
+  let (rng, dg) := s.rng.below 2
+  let s := { s with rng := rng }
+  let s := if dg = 0 then s.dangling else s
   let s := { s with lines := (s.lines.push "save g0").push s!"loadcuts g0 {cutStep}" }
   let s := { s with lines := s.lines.push "reload g0 g1" }
   let s := twoHandles s true p (len / 3) (len / 6)
@@ -387,7 +404,11 @@ def genSlice (rng : Rng) (len : Nat) : Rng × Array String :=
         let (r, c) := acc.1.below 4
         if c = 0 then (r, e :: acc.2) else (r, acc.2)) (rng, [])
     let h' := s!"g{i + 1}"
-    { s with rng := rng, lines := s.lines ++ #[s!"slice g0 {v} {h'} {showRej rj}", s!"observe {h'}", "observe g0"] }) s
+    -- afterwards the slice is used: data on two of its vertices, then every vertex is read (the reads reveal how
+    -- the rebuilt graph was grouped); ids outside the slice make the judge stop judging that handle
+    let (rng, w1) := rng.pick (if s.r.ids.isEmpty then [0] else s.r.ids)
+    let cont : Array String := #[s!"put {h'} {v} x0102", s!"put {h'} {w1} x03", s!"data {h'} {v}", s!"keys {h'}", s!"data {h'} {w1}", s!"keys {h'}", s!"snap {h'}"]
+    { s with rng := rng, lines := s.lines ++ #[s!"slice g0 {v} {h'} {showRej rj}", s!"observe {h'}", "observe g0"] ++ cont }) s
   let s := s.drain
   (s.rng, s.lines)
 
@@ -507,6 +528,9 @@ def genRender (rng : Rng) (len : Nat) : Rng × Array String :=
   let (rng, cap) := rng.pick [3, 5, 8, 12, 20]
   let s := GenSt.start rng n cap
   let s := (List.range (len / 2)).foldl (fun s _ => s.stepRandom profRender) s
+  let (rng, dg) := s.rng.below 3
+  let s := { s with rng := rng }
+  let s := if dg = 0 then s.dangling else s
   let s := renderLines s
   let s := twinLines s
   let s := (List.range (len / 2)).foldl (fun s _ => s.stepRandom profRender) s
